@@ -101,7 +101,7 @@ package anthropic
 //@   property C13
 //@   trusted
 //@   requires evAllowed(event, data)
-//@   modifies gvar evStarted, gvar evOpen, gvar evNext, gvar evDelta, gvar evStopped, gvar evBroken, gvar unflushed, gvar wBytes, gvar textOut, gvar argsOut
+//@   modifies gvar evStarted, gvar evOpen, gvar evNext, gvar evDelta, gvar evStopped, gvar evBroken, gvar unflushed, gvar wBytes, gvar textOut, gvar argsOut, ghost started, ghost status
 //@   records textOut = ite(res == nil, concat(old(textOut), evTextPayload(event, data)), old(textOut))
 //@   records argsOut = ite(res == nil, concat(old(argsOut), evArgsPayload(event, data)), old(argsOut))
 //@   records evStarted = old(evStarted) || (res == nil && event == "message_start")
@@ -129,7 +129,7 @@ package anthropic
 //@   property C13
 //@   safety
 //@   requires t != nil && rc != nil && streamInv(state)
-//@   modifies gvar evStarted, gvar evOpen, gvar evNext, gvar evDelta, gvar evStopped, gvar evBroken, gvar unflushed, gvar wBytes, gvar textOut, gvar argsOut, state.messageStartSent
+//@   modifies gvar evStarted, gvar evOpen, gvar evNext, gvar evDelta, gvar evStopped, gvar evBroken, gvar unflushed, gvar wBytes, gvar textOut, gvar argsOut, state.messageStartSent, ghost started, ghost status
 //@   ensures old(evBroken) ==> evBroken
 //@   ensures res == nil && !evBroken ==> textOut == old(textOut) && argsOut == old(argsOut)
 //@   ensures streamInv(state)
@@ -140,7 +140,7 @@ package anthropic
 //@   property C13
 //@   safety
 //@   requires t != nil && rc != nil && streamInv(state)
-//@   modifies gvar evStarted, gvar evOpen, gvar evNext, gvar evDelta, gvar evStopped, gvar evBroken, gvar unflushed, gvar wBytes, gvar textOut, gvar argsOut
+//@   modifies gvar evStarted, gvar evOpen, gvar evNext, gvar evDelta, gvar evStopped, gvar evBroken, gvar unflushed, gvar wBytes, gvar textOut, gvar argsOut, ghost started, ghost status
 //@   ensures old(evBroken) ==> evBroken
 //@   ensures res == nil && !evBroken ==> textOut == old(textOut) && argsOut == old(argsOut)
 //@   ensures res != nil ==> evBroken
@@ -152,7 +152,7 @@ package anthropic
 //@   property C13
 //@   safety
 //@   requires t != nil && rc != nil && streamInv(state)
-//@   modifies gvar evStarted, gvar evOpen, gvar evNext, gvar evDelta, gvar evStopped, gvar evBroken, gvar unflushed, gvar wBytes, gvar textOut, gvar argsOut, state.messageStartSent, state.currentBlock, state.currentIndex, state.contentBlocks, ContentBlock.Text
+//@   modifies gvar evStarted, gvar evOpen, gvar evNext, gvar evDelta, gvar evStopped, gvar evBroken, gvar unflushed, gvar wBytes, gvar textOut, gvar argsOut, state.messageStartSent, state.currentBlock, state.currentIndex, state.contentBlocks, ContentBlock.Text, ghost started, ghost status
 //@   ensures old(evBroken) ==> evBroken
 //@   ensures res == nil && !evBroken ==> textOut == concat(old(textOut), content) && argsOut == old(argsOut)
 //@   ensures res != nil ==> evBroken
@@ -170,7 +170,7 @@ package anthropic
 //@   replay anthropic_stream_two_tools
 //@   safety
 //@   requires t != nil && rc != nil && streamInv(state) && (evBroken || evStarted)
-//@   modifies gvar evStarted, gvar evOpen, gvar evNext, gvar evDelta, gvar evStopped, gvar evBroken, gvar unflushed, gvar wBytes, gvar textOut, gvar argsOut, state.currentBlock, state.currentIndex, state.contentBlocks, state.toolIndexToBlock[all]
+//@   modifies gvar evStarted, gvar evOpen, gvar evNext, gvar evDelta, gvar evStopped, gvar evBroken, gvar unflushed, gvar wBytes, gvar textOut, gvar argsOut, state.currentBlock, state.currentIndex, state.contentBlocks, state.toolIndexToBlock[all], ghost started, ghost status
 //@   ensures old(evBroken) ==> evBroken
 //@   ensures res == nil && !evBroken ==> textOut == old(textOut) && argsOut == old(argsOut)
 //@   ensures res != nil ==> evBroken
@@ -184,7 +184,7 @@ package anthropic
 //@   requires t != nil && rc != nil && streamInv(state) && (evBroken || evStarted)
 //@   requires has(state.toolCallBuffers, toolIndex) && state.toolCallBuffers[toolIndex] != nil
 //@   requires evBroken || state.currentBlock != nil
-//@   modifies gvar evStarted, gvar evOpen, gvar evNext, gvar evDelta, gvar evStopped, gvar evBroken, gvar unflushed, gvar wBytes, gvar textOut, gvar argsOut
+//@   modifies gvar evStarted, gvar evOpen, gvar evNext, gvar evDelta, gvar evStopped, gvar evBroken, gvar unflushed, gvar wBytes, gvar textOut, gvar argsOut, ghost started, ghost status
 //@   ensures old(evBroken) ==> evBroken
 //@   ensures res == nil && !evBroken ==> textOut == old(textOut) && argsOut == concat(old(argsOut), args)
 //@   ensures res != nil ==> evBroken
@@ -194,7 +194,7 @@ package anthropic
 //@   property C13
 //@   safety
 //@   requires t != nil && rc != nil && streamInv(state)
-//@   modifies gvar evStarted, gvar evOpen, gvar evNext, gvar evDelta, gvar evStopped, gvar evBroken, gvar unflushed, gvar wBytes, gvar textOut, gvar argsOut, gvar argsIn, state.messageStartSent, state.currentBlock, state.currentIndex, state.contentBlocks, state.toolIndexToBlock[all], state.toolCallBuffers[all]
+//@   modifies gvar evStarted, gvar evOpen, gvar evNext, gvar evDelta, gvar evStopped, gvar evBroken, gvar unflushed, gvar wBytes, gvar textOut, gvar argsOut, gvar argsIn, state.messageStartSent, state.currentBlock, state.currentIndex, state.contentBlocks, state.toolIndexToBlock[all], state.toolCallBuffers[all], ghost started, ghost status
 //@   ensures old(evBroken) ==> evBroken
 //@   ensures res == nil && !evBroken ==> textOut == old(textOut) && (old(argsOut) == old(argsIn) ==> argsOut == argsIn)
 //@   ensures res != nil ==> evBroken
@@ -212,7 +212,7 @@ package anthropic
 //@   property C13
 //@   safety
 //@   requires t != nil && rc != nil && t.inspector != nil && t.logger != nil && streamInv(state) && (evBroken || evStarted) && original != nil
-//@   modifies gvar evStarted, gvar evOpen, gvar evNext, gvar evDelta, gvar evStopped, gvar evBroken, gvar unflushed, gvar wBytes, gvar textOut, gvar argsOut, state.contentBlocks
+//@   modifies gvar evStarted, gvar evOpen, gvar evNext, gvar evDelta, gvar evStopped, gvar evBroken, gvar unflushed, gvar wBytes, gvar textOut, gvar argsOut, state.contentBlocks, ghost started, ghost status
 //@   loop 1 invariant streamInv2(state) && (old(evBroken) ==> evBroken)
 //@   ensures res == nil && !evBroken ==> evStarted && evDelta && evStopped && evOpen == -1
 //@   ensures res == nil && !evBroken ==> textOut == old(textOut) && argsOut == old(argsOut)
@@ -226,7 +226,7 @@ package anthropic
 //@   property C13 C20
 //@   safety
 //@   requires t != nil && rc != nil && t.logger != nil && streamInv(state)
-//@   modifies gvar evStarted, gvar evOpen, gvar evNext, gvar evDelta, gvar evStopped, gvar evBroken, gvar unflushed, gvar wBytes, gvar textOut, gvar argsOut, gvar argsIn, state.messageStartSent, state.currentBlock, state.currentIndex, state.contentBlocks, state.toolIndexToBlock[all], state.toolCallBuffers[all], state.model, state.lastFinishReason, state.inputTokens, state.outputTokens, ContentBlock.Text
+//@   modifies gvar evStarted, gvar evOpen, gvar evNext, gvar evDelta, gvar evStopped, gvar evBroken, gvar unflushed, gvar wBytes, gvar textOut, gvar argsOut, gvar argsIn, state.messageStartSent, state.currentBlock, state.currentIndex, state.contentBlocks, state.toolIndexToBlock[all], state.toolCallBuffers[all], state.model, state.lastFinishReason, state.inputTokens, state.outputTokens, ContentBlock.Text, ghost started, ghost status
 //@   ensures old(evBroken) ==> evBroken
 //@   ensures !evBroken ==> (old(argsOut) == old(argsIn) ==> argsOut == argsIn)
 //@   ensures streamInv(state)
@@ -235,7 +235,7 @@ package anthropic
 //@   property C13 C20
 //@   safety
 //@   requires t != nil && rc != nil && t.logger != nil && streamInv(state) && ctx != nil
-//@   modifies gvar evStarted, gvar evOpen, gvar evNext, gvar evDelta, gvar evStopped, gvar evBroken, gvar unflushed, gvar wBytes, gvar textOut, gvar argsOut, gvar argsIn, state.messageStartSent, state.currentBlock, state.currentIndex, state.contentBlocks, state.toolIndexToBlock[all], state.toolCallBuffers[all], state.model, state.lastFinishReason, state.inputTokens, state.outputTokens, ContentBlock.Text
+//@   modifies gvar evStarted, gvar evOpen, gvar evNext, gvar evDelta, gvar evStopped, gvar evBroken, gvar unflushed, gvar wBytes, gvar textOut, gvar argsOut, gvar argsIn, state.messageStartSent, state.currentBlock, state.currentIndex, state.contentBlocks, state.toolIndexToBlock[all], state.toolCallBuffers[all], state.model, state.lastFinishReason, state.inputTokens, state.outputTokens, ContentBlock.Text, ghost started, ghost status
 //@   loop 1 invariant streamInv(state) && (old(evBroken) ==> evBroken) && (evBroken || (old(argsOut) == old(argsIn) ==> argsOut == argsIn))
 //@   ensures old(evBroken) ==> evBroken
 //@   ensures !evBroken ==> (old(argsOut) == old(argsIn) ==> argsOut == argsIn)
